@@ -1,5 +1,6 @@
 # configuration of ./check C17 (see checklib/props.py)
-PROP = {'level': 'proof',
+PROP = {'facts': ['c17Ident', 'c17Names'],
+ 'level': 'proof',
  'rule': 'Cases: the 32 shipped dictionaries with their go:generate options; every attribute type (17) x encrypt {-,1,2,3} x has_tag {-,false,true} x '
          'concat {-,false,true} x size {-,16}, top-level and inside a vendor, as one-attribute dictionaries; the identifier normalisation on a list '
          'of special names (keyword-like, digit-leading, "+", initialisms, separators only, colliding spellings); random dictionaries (0-8 '
